@@ -15,10 +15,20 @@
 // happens to hold on entry (0, ERANGE, EINVAL, EILSEQ, EINTR, ... left by an unrelated earlier call) must not change any
 // result. The incoming errno is part of every duration / time / size / parse_size / time_seq case (trailing field, 0 when
 // absent) and is stored immediately before each call into phosg.
+//
+// Ambient state, time zone: format_time promises the UTC calendar date and time, so the TZ environment variable of the
+// calling process (and the zone tzset() derived from it) must not change any result. Every time / time_seq case carries
+// the TZ setting it runs under as its blob field (absent = the environment as the harness found it, "(unset)" = TZ removed,
+// anything else = setenv("TZ", ...) followed by tzset()); the previous setting is restored when the case is over, so a case
+// replays exactly and leaves nothing behind. POSIX TZ strings (JST-9, EST5EDT,M3.2.0,M11.1.0, NPT-5:45, <+14>-14 ...) need
+// no zone database; a few database names are in the list too (they mean UTC where the database is not installed).
 #include <errno.h>
+#include <stdlib.h>
 #include <sys/time.h>
+#include <time.h>
 
 #include <chrono>
+#include <memory>
 #include <thread>
 
 #include <phosg/Strings.hh>
@@ -184,11 +194,65 @@ static Case gen_duration() {
 
 #ifndef C18_SWEEP_ONLY
 
+// ---------------------------------------------------------------- ambient time zone
+
+static const char* const kUnsetTZ = "(unset)";
+static const char* const kTZs[] = {
+    kUnsetTZ, "", "UTC0", "JST-9", "EST5EDT,M3.2.0,M11.1.0", "NPT-5:45", "<+14>-14", "<-12>12", "CET-1CEST,M3.5.0,M10.5.0/3",
+    "NZST-12NZDT,M9.5.0,M4.1.0/3", "<-0330>3:30<-0230>,M3.2.0,M11.1.0", "PST8PDT", "IST-5:30", "XXX0:00:01", "<+1245>-12:45<+1345>,M9.5.0/2:45,M4.1.0/3:45",
+    "Europe/Berlin", "America/New_York", ":Asia/Kolkata", "Australia/Lord_Howe", "Pacific/Kiritimati", "not a zone"};
+static const size_t kNumTZs = sizeof(kTZs) / sizeof(kTZs[0]);
+static inline const char* tz_for(uint64_t x) { return kTZs[mix(x, 0x7A0E) % kNumTZs]; } // deterministic rotation for the enumerators
+static inline const std::string* opt_tz(const Case& c) { return c.s.empty() ? nullptr : &c.s[0]; }
+static std::string tz_note(const std::string* tz) { return tz ? (*tz == kUnsetTZ ? std::string(" [TZ unset]") : cat(" [TZ=\"", *tz, "\"]")) : std::string(); }
+
+// applies a TZ setting for the lifetime of the object and puts the previous one back afterwards
+struct TzScope {
+  bool active = false, had = false;
+  std::string old;
+  explicit TzScope(const std::string* tz) {
+    if (!tz) return;
+    if (tz->find('\0') != std::string::npos) throw std::logic_error("TZ setting with a NUL byte");
+    active = true;
+    if (const char* o = getenv("TZ")) {
+      had = true;
+      old = o;
+    }
+    apply(*tz == kUnsetTZ ? nullptr : tz->c_str());
+  }
+  ~TzScope() {
+    if (active) apply(had ? old.c_str() : nullptr);
+  }
+  TzScope(const TzScope&) = delete;
+  TzScope& operator=(const TzScope&) = delete;
+  static void apply(const char* v) {
+    if (v) setenv("TZ", v, 1);
+    else unsetenv("TZ");
+    tzset();
+  }
+};
+// each generated case: a quarter in the environment as found, the rest under a listed setting
+static void gen_tz(Case& c) {
+  if (!vg::chance(1, 4)) c.S(kTZs[vg::below(kNumTZs)]);
+}
+// attribution of a mismatch: does the same call give the expected text once TZ is out of the picture?
+static bool time_ok_without_tz(uint64_t t, const std::string& want) {
+  std::string unset = kUnsetTZ;
+  TzScope z(&unset);
+  try {
+    errno = 0;
+    return phosg::format_time(t) == want;
+  } catch (const std::exception&) {
+    return false;
+  }
+}
+
 // ---------------------------------------------------------------- format_time
 
+static const uint64_t kSecond = 1000000ULL;
 static const uint64_t kEndOfDomain = static_cast<uint64_t>(c18::kLastDay + 1) * c18::kUsecPerDay; // 10000-01-01 00:00:00
 
-// case: n = [t] microseconds since the epoch, year <= 9999
+// case: n = [t, incoming errno] microseconds since the epoch, year <= 9999; s = [TZ setting] (optional)
 static void run_time(const Case& c) {
   uint64_t t = c.u(0);
   if (t >= kEndOfDomain) throw std::logic_error("timestamp beyond year 9999");
@@ -206,19 +270,27 @@ static void run_time(const Case& c) {
     }
   }
   uint64_t en = opt(c, 1);
+  const std::string* tz = opt_tz(c);
   std::string got;
-  try {
-    ambient(en);
-    got = phosg::format_time(t);
-  } catch (const std::exception& e) {
-    VFAIL("time-throws", "format_time(", t, ") threw ", typeid(e).name(), ": ", e.what(), errno_note(en));
+  {
+    TzScope zone(tz);
+    try {
+      ambient(en);
+      got = phosg::format_time(t);
+    } catch (const std::exception& e) {
+      VFAIL("time-throws", "format_time(", t, ") threw ", typeid(e).name(), ": ", e.what(), errno_note(en), tz_note(tz));
+    }
   }
   if (got != want) {
-    const char* clause = "time-date";
+    std::string clause = "time-date";
     if (got.size() >= 19 && want.compare(0, 19, got, 0, 19) == 0) clause = "time-microseconds";
     else if (got.size() >= 10 && want.compare(0, 10, got, 0, 10) == 0) clause = "time-clock";
-    VFAIL(clause, "format_time(", t, ") = \"", got, "\" expected \"", want, "\"", errno_note(en));
+    bool tz_dep = tz && time_ok_without_tz(t, want);
+    if (tz_dep) clause += ":depends-on-TZ";
+    VFAIL(clause, "format_time(", t, ") = \"", got, "\" expected \"", want, "\" (UTC)", errno_note(en), tz_note(tz), tz_dep ? "; the same call gives the expected text when TZ is unset" : "");
   }
+  if (tz) ctx().cls(cat("time:TZ=", *tz));
+  else ctx().cls("time:TZ as found");
   c18::Civil cv = c18::civil_from_days(static_cast<int64_t>(t / c18::kUsecPerDay));
   uint64_t sod = (t % c18::kUsecPerDay) / 1000000;
   if ((cv.month == 2 && cv.day >= 28) || (cv.month == 3 && cv.day == 1) || (cv.month == 12 && cv.day == 31) || (cv.month == 1 && cv.day == 1) || sod % 60 == 59 || t % 1000000 != 0) ctx().nontrivial_case();
@@ -231,10 +303,13 @@ static void enum_time(Enum& e) {
   if (c18::days_from_civil_slow(9999, 12, 31) != c18::kLastDay || c18::days_from_civil_slow(1970, 1, 1) != 0) throw std::logic_error("harness: day count of the domain is wrong");
   for (int64_t d0 = 0; d0 <= c18::kLastDay && !e.stop; d0 += block, bidx++) {
     if (!e.mine(bidx)) continue;
-    e.journal_block(Case("time").N(static_cast<uint64_t>(d0) * c18::kUsecPerDay));
+    // the block runs under one TZ setting (rotating over the list from block to block)
+    std::string tz = kTZs[bidx % kNumTZs];
+    e.journal_block(Case("time").N(static_cast<uint64_t>(d0) * c18::kUsecPerDay).N(0).S(tz));
     int64_t d1 = std::min<int64_t>(d0 + block, c18::kLastDay + 1);
     uint64_t n = 0;
     bool bad = false;
+    std::unique_ptr<TzScope> zone(new TzScope(&tz));
     for (int64_t d = d0; d < d1 && !bad; d++) {
       static const uint64_t secs[3] = {0, 59, 86399};
       for (int k = 0; k < 3; k++) {
@@ -253,15 +328,17 @@ static void enum_time(Enum& e) {
         } catch (const std::exception&) {
         }
         if (!ok) {
-          e.exec_light(Case("time").N(t).N(en));
+          zone.reset();
+          e.exec_light(Case("time").N(t).N(en).S(tz));
           bad = true;
           break;
         }
       }
     }
+    zone.reset();
     e.x.count(n);
     // one fully journalled case per block keeps the reference cross-checks (std::chrono, slow count) in play
-    e.exec(Case("time").N(static_cast<uint64_t>(d0) * c18::kUsecPerDay + 86399ULL * 1000000 + 999999));
+    e.exec(Case("time").N(static_cast<uint64_t>(d0) * c18::kUsecPerDay + 86399ULL * 1000000 + 999999).N(0).S(tz_for(bidx)));
   }
   // every day of the years around leap-rule corners through the full oracle
   uint64_t idx = 0;
@@ -270,10 +347,18 @@ static void enum_time(Enum& e) {
     for (int64_t d = first; d < first + (c18::is_leap(y) ? 366 : 365) && !e.stop; d++, idx++) {
       if (!e.mine(idx)) continue;
       for (uint64_t s : {0ULL, 59ULL, 3599ULL, 3600ULL, 43200ULL, 86399ULL})
-        e.exec(Case("time").N(static_cast<uint64_t>(d) * c18::kUsecPerDay + s * 1000000 + (mix(idx, s) % 1000000)).N(errno_for(idx * 8 + s)));
+        e.exec(Case("time").N(static_cast<uint64_t>(d) * c18::kUsecPerDay + s * 1000000 + (mix(idx, s) % 1000000)).N(errno_for(idx * 8 + s)).S(tz_for(idx * 8 + s)));
     }
   }
-  e.complete("second 0, 59 and 86399 of every day 1970-01-01..9999-12-31 (microseconds 0 / 999999 / hashed); every day of 1970, 1972, 1999, 2000, 2001, 2038, 2100, 2400, 9999 x 6 times of day");
+  // every listed TZ setting x the hours of one winter and one summer day (DST rules of either hemisphere), the first and the last day of the domain
+  for (size_t z = 0; z < kNumTZs && !e.stop; z++) {
+    if (!e.mine(idx++)) continue;
+    for (int64_t day : {int64_t(0), c18::days_from_civil_slow(2024, 1, 15), c18::days_from_civil_slow(2024, 7, 15), c18::days_from_civil_slow(2038, 1, 19), c18::kLastDay})
+      for (uint64_t h = 0; h < 24; h++)
+        e.exec(Case("time").N(static_cast<uint64_t>(day) * c18::kUsecPerDay + h * 3600 * kSecond + (mix(z, h) % kSecond)).N(errno_for(z * 24 + h)).S(kTZs[z]));
+  }
+  e.complete(cat("second 0, 59 and 86399 of every day 1970-01-01..9999-12-31 (microseconds 0 / 999999 / hashed; TZ setting rotating over ", kNumTZs,
+      " values from one block of 2048 days to the next); every day of 1970, 1972, 1999, 2000, 2001, 2038, 2100, 2400, 9999 x 6 times of day (TZ rotating); every listed TZ setting x every hour of 1970-01-01, 2024-01-15, 2024-07-15, 2038-01-19, 9999-12-31"));
 }
 
 static Case gen_time() {
@@ -306,7 +391,10 @@ static Case gen_time() {
   }
   uint64_t us = vg::chance(1, 4) ? vg::pick<uint64_t>({0, 1, 9, 10, 99999, 100000, 999999}) : vg::below(1000000);
   if (day > static_cast<uint64_t>(c18::kLastDay)) day = c18::kLastDay;
-  return Case("time").N(day * c18::kUsecPerDay + sod * 1000000 + us).N(gen_errno());
+  Case c("time");
+  c.N(day * c18::kUsecPerDay + sod * 1000000 + us).N(gen_errno());
+  gen_tz(c);
+  return c;
 }
 
 // ---------------------------------------------------------------- format_time: sequences of calls on one thread
@@ -317,7 +405,8 @@ static Case gen_time() {
 // related the way a memo, a truncated key or a reused buffer would confuse them: same second with other microseconds,
 // the same timestamp again, +-1 us / 1 s / 1 min / 1 h / 1 day / 365 days, and k x 2^16, 2^24, 2^31, 2^32 seconds,
 // k x 2^32 microseconds or milliseconds apart.
-// case: n = [incoming errno, t1, t2, ...]
+// case: n = [incoming errno, t1, t2, ...]; s = [TZ setting] (optional): applied (setenv + tzset) before the thread starts,
+// restored after it has been joined
 static const uint64_t kSec = 1000000ULL;
 static const uint64_t kSeqDeltas[] = {1, 999999, kSec, 60 * kSec, 3600 * kSec, 86400 * kSec, 365 * 86400 * kSec, 1ULL << 32, (1ULL << 32) * 1000,
     (1ULL << 32) * kSec, (1ULL << 31) * kSec, (1ULL << 16) * kSec, (1ULL << 24) * kSec};
@@ -331,6 +420,8 @@ static void run_time_seq(const Case& c) {
   for (size_t i = 0; i < n; i++)
     if (c.u(i + 1) >= kEndOfDomain) throw std::logic_error("timestamp beyond year 9999");
   std::vector<std::string> got(n), threw(n);
+  const std::string* tz = opt_tz(c);
+  std::unique_ptr<TzScope> zone(new TzScope(tz));
   std::thread th([&] {
     for (size_t i = 0; i < n; i++) {
       try {
@@ -343,6 +434,7 @@ static void run_time_seq(const Case& c) {
     }
   });
   th.join();
+  zone.reset();
   bool step_2p32 = false, step_same_second = false, distinct_seconds = false;
   for (size_t i = 0; i < n; i++) {
     uint64_t t = c.u(i + 1);
@@ -353,7 +445,7 @@ static void run_time_seq(const Case& c) {
       for (size_t j = 0; j <= i; j++) h += cat(j ? ", " : "", c.u(j + 1));
       return h;
     };
-    VCHECK(threw[i].empty(), "time-seq-throws", "call #", i, " of the sequence format_time(", history(), ") threw ", threw[i], errno_note(en));
+    VCHECK(threw[i].empty(), "time-seq-throws", "call #", i, " of the sequence format_time(", history(), ") threw ", threw[i], errno_note(en), tz_note(tz));
     if (got[i] != want) {
       std::string clause = "time-seq-date";
       if (got[i].size() >= 19 && want.compare(0, 19, got[i], 0, 19) == 0) clause = "time-seq-microseconds";
@@ -367,7 +459,8 @@ static void run_time_seq(const Case& c) {
           break;
         }
       }
-      VFAIL(clause, "call #", i, " of the sequence format_time(", history(), ") on one thread returned \"", got[i], "\" expected \"", want, "\"", errno_note(en));
+      if (clause.find(':') == std::string::npos && tz && time_ok_without_tz(t, want)) clause += ":depends-on-TZ";
+      VFAIL(clause, "call #", i, " of the sequence format_time(", history(), ") on one thread returned \"", got[i], "\" expected \"", want, "\" (UTC)", errno_note(en), tz_note(tz));
     }
     if (i > 0) {
       uint64_t a = c.u(i) / kSec, b = t / kSec;
@@ -380,6 +473,7 @@ static void run_time_seq(const Case& c) {
   if (distinct_seconds) ctx().nontrivial_case();
   if (step_2p32) ctx().cls("time_seq:has-a-step-of-k*2^32-seconds");
   if (step_same_second) ctx().cls("time_seq:has-a-same-second-step");
+  ctx().cls(tz ? (*tz == kUnsetTZ || tz->empty() || *tz == "UTC0" ? "time_seq:TZ unset / empty / UTC0" : "time_seq:TZ set to another zone") : "time_seq:TZ as found");
 }
 
 static uint64_t seq_step(uint64_t t, uint64_t d, bool up) {
@@ -405,7 +499,7 @@ static void enum_time_seq(Enum& e) {
               if (up ? (base + d >= kEndOfDomain) : (base < d)) continue;
               uint64_t other = up ? base + d : base - d;
               // there and back, then the neighbouring microsecond of each
-              e.exec(Case("time_seq").N(errno_for(idx * 64 + di)).N(base).N(other).N(base).N(other ^ 1).N(base ^ 1));
+              e.exec(Case("time_seq").N(errno_for(idx * 64 + di)).N(base).N(other).N(base).N(other ^ 1).N(base ^ 1).S(tz_for((idx * 64 + di) * 128 + k * 2 + up)));
             }
           }
         }
@@ -414,7 +508,7 @@ static void enum_time_seq(Enum& e) {
   }
   e.complete("for 72 base timestamps (Jan 1, last day of February, Dec 31 of 1970, 1999, 2000, 2038, 2106, 2400, 5000, 9999 x 3 times of day): the sequence "
              "t, t', t, t' xor 1us, t xor 1us for t' = t +- k x {1 us, 999999 us, 1 s, 1 min, 1 h, 1 day, 365 days, 2^32 us, 2^32 ms, 2^31 s, 2^16 s, 2^24 s} (k = 1..3) "
-             "and t +- k x 2^32 s for every k that stays inside 1970..9999");
+             "and t +- k x 2^32 s for every k that stays inside 1970..9999; the TZ setting rotates over the list from sequence to sequence");
 }
 
 static Case gen_time_seq() {
@@ -438,6 +532,7 @@ static Case gen_time_seq() {
     c.N(nt);
     t = nt;
   }
+  gen_tz(c);
   return c;
 }
 
